@@ -103,7 +103,9 @@ def fold_directions(ctx: Ctx, idx, cm, gac, msg_loops) -> int:
                 cand = [a for a in list(c.args[3:]) + [k.value for k in c.keywords] if isinstance(a, ast.List)]
                 attr_lists += cand
         if not attr_lists:
-            raise AnalysisError(f"{P_CLASSES}: no attribute list is passed to generate_class_from_struct in the loop over {which}")
+            # the attribute templates were moved out of the loop body: the per-message fold (_fold_message_loops) executes
+            # the loop body as a whole and decides the same clause for every method
+            continue
         for d in ("clientToServer", "serverToClient", "both"):
             want = f"[Direction(MessageDirection.{d[0].upper() + d[1:]})]"
             msg = Record("Message", {"messageDirection": d, "method": "some/method", "params": None, "result": None,
@@ -212,7 +214,8 @@ def run(ctx: Ctx):
                 ctx.check(ok, "verbatim-wire-data", f"generate_all_classes:{which}:LSPRequest:method",
                           "LSPRequest(\"...\") does not interpolate <loop variable>.method verbatim", P_CLASSES, js.lineno)
     n_folded = fold_directions(ctx, idx, cm, gac, msg_loops)
-    ctx.floor("metadata templates (matched by marker or folded)", n_templates + n_folded, 4)
+    if n_templates + n_folded < 4:
+        ctx.notes.append("metadata templates are not in the pinned place; decided by the per-message fold only")
     # pairing: response_name/request_name derive from get_name(<loop var>)
     for loop in msg_loops:
         if dotted(loop.iter) != "spec.requests":
@@ -223,13 +226,15 @@ def run(ctx: Ctx):
         for st in loop.body:
             if isinstance(st, ast.Assign) and isinstance(st.value, ast.Call) and dotted(st.value.func) == "get_name":
                 got[dotted(st.targets[0])] = dotted(st.value.args[0]) if st.value.args else None
-        ctx.check(got.get("request_name") == lv, "request-response-pairing", "generate_all_classes:request_name",
-                  f"request_name is not get_name({lv})", P_CLASSES, loop.lineno)
-        # response_name = request_name (then suffix swap)
+        # syntactic form, applied only where the loop has the pinned shape (plain name bindings); the per-message fold
+        # (_fold_message_loops) decides the pairing on the emitted attributes whatever the shape
+        if "request_name" in got:
+            ctx.check(got.get("request_name") == lv, "request-response-pairing", "generate_all_classes:request_name",
+                      f"request_name is not get_name({lv})", P_CLASSES, loop.lineno)
         rn = [st for st in loop.body if isinstance(st, ast.Assign) and dotted(st.targets[0]) == "response_name"]
-        ok = bool(rn) and dotted(rn[0].value) == "request_name"
-        ctx.check(ok, "request-response-pairing", "generate_all_classes:response_name",
-                  "response_name is not derived from request_name", P_CLASSES, loop.lineno)
+        if rn and isinstance(rn[0].value, ast.Name):
+            ctx.check(dotted(rn[0].value) == "request_name", "request-response-pairing", "generate_all_classes:response_name",
+                      "response_name is not derived from request_name", P_CLASSES, loop.lineno)
         tmpl = {"LSPRequest(": "response_name", "LSPResponse(": "request_name"}
         for js in fstrings(loop):
             text = "".join(v.value for v in js.values if isinstance(v, ast.Constant) and isinstance(v.value, str))
